@@ -39,6 +39,7 @@ type Obligation struct {
 	RelaxedModel bool
 	Slow     bool
 	Reveal   []string
+	FileID   int
 	Vacuous  bool
 	IsCanary bool
 }
@@ -75,6 +76,7 @@ type Exec struct {
 	reveal     map[string]bool
 	closeSites map[string]bool
 	hitSites   map[string]bool
+	topRets    []retState
 }
 
 func NewExec(P *Program, S *Specs, key string) *Exec {
@@ -209,6 +211,7 @@ type frame struct {
 type retState struct {
 	st  *State
 	res []Value
+	pos token.Pos
 }
 
 // findLoops computes natural loops from back edges (target dominates source).
@@ -493,6 +496,9 @@ func (x *Exec) runBody(fn *ssa.Function, c *Contract, params, free []Value, st *
 		}
 		res[i] = cur
 	}
+	if inlineDepth == 0 {
+		x.topRets = f.rets
+	}
 	out.defers = savedDefers
 	// locals of the callee are dead
 	for a := range out.locals {
@@ -563,7 +569,17 @@ func (f *frame) runNode(n *node) {
 			for _, r := range i.Results {
 				res = append(res, f.get(r, n, st))
 			}
-			f.rets = append(f.rets, retState{st, res})
+			pos := i.Pos()
+			if !pos.IsValid() {
+				// the return instruction often has no position: use the closest earlier one in the block
+				for k := len(n.B.Instrs) - 1; k >= 0; k-- {
+					if p := n.B.Instrs[k].Pos(); p.IsValid() {
+						pos = p
+						break
+					}
+				}
+			}
+			f.rets = append(f.rets, retState{st, res, pos})
 			return
 		case *ssa.Panic:
 			f.panicAt(i, n, st)
